@@ -103,7 +103,28 @@ func (p *objectWalker) walkAllRefs() error {
 		}
 		return p.walkObjectTree(ref.Hash())
 	})
-	return err
+	if err != nil {
+		return err
+	}
+
+	// Content that is staged but not committed yet is named by the index
+	// only. It is in use all the same (git prune and git repack keep it too).
+	idx, err := p.Storer.Index()
+	if err != nil {
+		return err
+	}
+	for _, e := range idx.Entries {
+		if e.Mode == filemode.Submodule {
+			continue
+		}
+		// An entry whose blob is not there (intent-to-add, or an index that
+		// is ahead of a partial clone) has nothing to protect or repack.
+		if err := p.Storer.HasEncodedObject(e.Hash); err != nil {
+			continue
+		}
+		p.add(e.Hash)
+	}
+	return nil
 }
 
 func (p *objectWalker) isSeen(hash plumbing.Hash) bool {
